@@ -138,6 +138,13 @@ def valid(case):
         s = cfg['settings']
         if not (s is None or isinstance(s, str) or _is_str_list(s)):
             return False
+        prog = cfg.get('program')
+        if prog is not None:
+            if sorted(prog['order']) != ['defaults', 'policy', 'session', 'view']:
+                return False
+            if any(k not in prog['order'] or not isinstance(v, int) or isinstance(v, bool) or not 0 <= v <= 3
+                   for k, v in prog.get('depth', {}).items()):
+                return False
         pats = ([s] if isinstance(s, str) else (s or [])) + (case['caller'] or [])
         if case['caller'] is not None and not _is_str_list(case['caller']):
             return False
@@ -258,8 +265,9 @@ def _app(cfg):
     settings = {}
     if cfg['settings'] is not None:
         settings['pyramid.csrf_trusted_origins'] = cfg['settings']
-    config = I['Configurator'](settings=settings)
-    config.set_session_factory(I['SessionFactory'](_Ser(), cookie_name='session', timeout=None, reissue_time=None))
+    # a real non-autocommit Configurator; the statements are made in the order (and include nesting) the case
+    # prescribes and committed once by make_wsgi_app()
+    config = I['Configurator'](settings=settings, autocommit=False)
     if cfg['storage'] == 'legacy':
         policy = I['csrf'].LegacySessionCSRFStoragePolicy()
     elif cfg['storage'] == 'session':
@@ -268,31 +276,59 @@ def _app(cfg):
     else:
         policy = I['csrf'].CookieCSRFStoragePolicy()
         policy._token_factory = lambda: _cur['fresh']
-    config.set_csrf_storage_policy(policy)
     log = {'ran': 0, 'cb': []}
     d = cfg['defaults']
-    if d is not None:
-        kw = {k: v for k, v in d.items() if k != 'callback'}
-        if 'safe_methods' in kw:
-            kw['safe_methods'] = tuple(kw['safe_methods'])
-        if d.get('callback') is not None:
-            kw['callback'] = _callback(d['callback'], log['cb'])
-        config.set_default_csrf_options(**kw)
 
     def view(context, request):
         log['ran'] += 1
         return I['Response']('ok')
 
-    vkw = {}
-    if cfg['explicit'] is not None:
-        vkw['require_csrf'] = 'yes' if cfg['explicit'] == 'other' else cfg['explicit']
-    if cfg['exception_only']:
-        def raiser(context, request):
-            raise Boom()
-        config.add_view(raiser, require_csrf=False)
-        config.add_view(view, context=Boom, exception_only=True, **vkw)
-    else:
-        config.add_view(view, **vkw)
+    def st_session(c):
+        c.set_session_factory(I['SessionFactory'](_Ser(), cookie_name='session', timeout=None, reissue_time=None))
+
+    def st_policy(c):
+        c.set_csrf_storage_policy(policy)
+
+    def st_defaults(c):
+        if d is not None:
+            kw = {k: v for k, v in d.items() if k != 'callback'}
+            if 'safe_methods' in kw:
+                kw['safe_methods'] = tuple(kw['safe_methods'])
+            if d.get('callback') is not None:
+                kw['callback'] = _callback(d['callback'], log['cb'])
+            c.set_default_csrf_options(**kw)
+
+    def st_view(c):
+        vkw = {}
+        if cfg['explicit'] is not None:
+            vkw['require_csrf'] = 'yes' if cfg['explicit'] == 'other' else cfg['explicit']
+        if cfg['exception_only']:
+            def raiser(context, request):
+                raise Boom()
+            c.add_view(raiser, require_csrf=False)
+            c.add_view(view, context=Boom, exception_only=True, **vkw)
+        else:
+            c.add_view(view, **vkw)
+
+    stmts = {'session': st_session, 'policy': st_policy, 'defaults': st_defaults, 'view': st_view}
+    prog = cfg.get('program') or {'order': ['session', 'policy', 'defaults', 'view'], 'depth': {}}
+
+    counter = [0]
+
+    def nested(fn, depth):
+        if depth <= 0:
+            return fn
+        inner = nested(fn, depth - 1)
+
+        def includeme(c):
+            inner(c)
+        # config.include() skips a callable whose module:name it has already processed
+        counter[0] += 1
+        includeme.__name__ = 'includeme_%d' % counter[0]
+        return lambda c: c.include(includeme)
+
+    for name in prog['order']:
+        nested(stmts[name], prog.get('depth', {}).get(name, 0))(config)
 
     config.add_tween('harness.c12.prop.capture_tween_factory')
     app = config.make_wsgi_app()
@@ -592,6 +628,13 @@ def _req_wire(cfg, r):
     return [envs, post, query, _opt(stored), fresh, cbv, _v6_table(origins)]
 
 
+def _defaults_first(cfg):
+    prog = cfg.get('program')
+    if not prog:
+        return True
+    return prog['order'].index('defaults') < prog['order'].index('view')
+
+
 def _cfg_wire(cfg):
     return to_wire({'config': cfg, 'caller': None, 'reqs': []})[0]
 
@@ -623,7 +666,8 @@ def to_wire(case):
     s = cfg['settings']
     cw = [[] if ex in (None, 'other') else [ex], dw, cfg['exception_only'],
           {'legacy': 0, 'session': 1, 'cookie': 2}[cfg['storage']],
-          [] if s is None else [s] if isinstance(s, str) else list(s)]
+          [] if s is None else [s] if isinstance(s, str) else list(s),
+          _defaults_first(cfg)]
     caller = [] if case['caller'] is None else [list(case['caller'])]
     return [cw, caller, [_req_wire(cfg, r) for r in case['reqs']]]
 
@@ -822,6 +866,9 @@ def kinds(case, obs):
             ks.append('unreadable-observation')
         return ks
     ks = ['storage-' + case['config']['storage'], 'history-%d' % len(case['reqs']),
+          'stmt-defaults-%s' % ('absent' if case['config']['defaults'] is None else
+                                'before-view' if _defaults_first(case['config']) else 'after-view'),
+          'stmt-nesting-%d' % max([0] + list((case['config'].get('program') or {}).get('depth', {}).values())),
           'caller-list' if case['caller'] is not None else 'settings-list']
     try:
         for r, st in zip(case['reqs'], obs[0]):
